@@ -180,9 +180,16 @@ func ruleDir(p *Prog, r *Report, c dirCfg) {
 			}
 			args := cc.Args
 			dst, val := args[len(args)-2], args[len(args)-1]
-			_, off, okc := sliceLow(dst)
+			base, off, okc := sliceLow(dst)
 			if !okc {
 				undecided("R-DIR: non-constant write offset in %s", c.writer)
+			}
+			// the entry window is a slice positioned at a computed offset (it depends on the index of the table);
+			// a store at a constant offset of the whole buffer belongs to the file header, not to an entry
+			if win, isWin := base.(*ssa.Slice); !isWin || win.Low == nil {
+				continue
+			} else if _, constLow := intConst(win.Low); constLow {
+				continue
 			}
 			written = append(written, dirItem{off: off, width: widthOf(name), val: val, in: in})
 		}
